@@ -180,8 +180,15 @@ def property_modules(pid):
             out.append(f[:-5])
     return out
 
+def extra_audit(pid):
+    p = os.path.join(VERIF, "tools", "extra_audit.json")
+    if not os.path.exists(p):
+        return [], []
+    e = json.load(open(p)).get(pid, {})
+    return e.get("imports", []), e.get("theorems", [])
+
 def property_theorems(pid):
-    thms = []
+    thms = list(extra_audit(pid)[1])
     for mod in property_modules(pid):
         src = open(os.path.join(LEAN, "Qco", "Properties", mod + ".lean")).read()
         src_nc = re.sub(r"/-.*?-/", "", src, flags=re.S)
@@ -218,6 +225,8 @@ def audit(pid):
     with open(apath, "w") as f:
         for mod in property_modules(pid):
             f.write("import Qco.Properties.%s\n" % mod)
+        for imp in extra_audit(pid)[0]:
+            f.write("import %s\n" % imp)
         for t in thms:
             f.write("#print axioms %s\n" % t)
     rc, out = sh(["lake", "env", "lean", os.path.join("Audit", pid + ".lean")], cwd=LEAN, timeout=1200)
